@@ -897,14 +897,40 @@ def rule_post(ctx, res):
     if isinstance(fc2, bytes):
         cases.append(('a text that ends with PICO8_FUTURE_CODE2',
                       b'x=1\n' + fc2))
-    for (what, text) in cases:
-        stream = bytearray(b':c:\x00') + bytes([len(text) >> 8,
-                                                 len(text) & 255, 0, 0])
-        for b in text:
-            stream += bytes([0, b])
+    def lits(t):
+        out = bytearray()
+        for b in t:
+            out += bytes([0, b])
+        return out
+
+    def block(offset, length):
+        return bytes([offset // ref.C_OFFSET_RADIX + 0x3c,
+                      (offset % ref.C_OFFSET_RADIX) | ((length - 2) << 4)])
+    # streams with back-references (an independent decoder copies byte by
+    # byte and stops at the header length -- picotool's own streams for code
+    # that mentions _update60 end in a block that runs past it)
+    blocks = [
+        ('three literals and a reference that overlaps its own output '
+         '(offset 3, length 5)', b'abcabcab', 8,
+         lits(b'abc') + block(3, 5)),
+        ('a reference that runs past the header length (offset 3, length 5, '
+         'header length 6)', b'abcabc', 6, lits(b'abc') + block(3, 5)),
+        ('a reference that does not overlap (offset 6, length 4)',
+         b'abcdefabcd', 10, lits(b'abcdef') + block(6, 4)),
+        ('a reference followed by literals', b'ababaXY', 7,
+         lits(b'ab') + block(2, 3) + lits(b'XY')),
+    ]
+    todo = [(what, text, len(text), lits(text), True)
+            for (what, text) in cases] + [
+        (what, text, n, body, False) for (what, text, n, body) in blocks]
+    for (what, text, hlen, body, literal_only) in todo:
+        stream = bytearray(b':c:\x00') + bytes([hlen >> 8, hlen & 255, 0, 0])
+        stream += body
         cxi = CX.Cx(ctx.model, ctx.consts)
-        inst = 'the escaped-literal stream of {} decodes to that text ' \
-            '(evaluated)'.format(what)
+        inst = ('the escaped-literal stream of {} decodes to that text '
+                '(evaluated)' if literal_only else
+                'a stream with {} decodes to {!r} (evaluated)').format(
+                    what, text)
         try:
             paths = cxi.explore(lambda: cxi.call_function(
                 f, [CX.Seq('bytearray', list(stream))], {}))
@@ -931,10 +957,13 @@ def rule_post(ctx, res):
         code = bytes(code)
         res.check(code == text, 'R-C05-post', q, inst,
                   '{} bytes'.format(len(text)),
-                  'the stream 0x00-escapes the {} bytes of {!r}; an '
-                  'independent decoder returns them, decompress_code '
-                  'returns {!r} ({} bytes): what it strips after decoding is '
-                  'part of the text'.format(
+                  ('the stream 0x00-escapes the {} bytes of {!r}; an '
+                   'independent decoder returns them, decompress_code '
+                   'returns {!r} ({} bytes): what it strips after decoding is '
+                   'part of the text' if literal_only else
+                   'an independent decoder (byte-wise copy, stop at the '
+                   'header length) returns the {} bytes {!r}; '
+                   'decompress_code returns {!r} ({} bytes)').format(
                       len(text), text[-24:] if len(text) > 24 else text,
                       code[-24:] if len(code) > 24 else code, len(code)),
                   f.loc, semantic=True)
